@@ -97,10 +97,13 @@ OrdSubsets(n) == {p \in UNION {[1..m -> 1..n] : m \in 1..n} : \A i, j \in 1..Len
 NoIn == [op |-> "", a |-> <<>>, S |-> <<>>, form |-> "", insert |-> <<>>, groups |-> <<>>]
 Init == in = NoIn /\ out = <<>> /\ ph = 0
 
+\* two labelled singleton dimensions r, s and a longer one: reshape may drop one singleton and must keep the other's label
+ArrS == Plain(Fresh(<<"r", "s", "x">>, <<"i", "i", "i">>, << <<8>>, <<6>>, <<4, 2>> >>, <<1, 2, 3>>, "f", 7, 100))
 Choose ==
   /\ ph = 0 /\ ph' = 1 /\ out' = out
-  /\ \E nd \in 1..(IF Big THEN 4 ELSE 3) :
-       LET a == ArrN(nd) IN
+  /\ \E tk \in 1..(IF Big THEN 5 ELSE 4) :
+       LET a == IF tk = (IF Big THEN 5 ELSE 4) THEN ArrS ELSE ArrN(tk)
+           nd == NDim(a) IN
        \/ \E S \in OrdSubsets(nd) : \E ins \in {<<>>} \cup {<<k>> : k \in 0..(nd - Len(S))} : \E form \in {"tuple", "list", "set"} :
              /\ (form = "set" => IsInc(S))                       \* a set means array order
              /\ in' = [NoIn EXCEPT !.op = "flatten", !.a = a, !.S = S, !.insert = ins, !.form = form]
